@@ -4,6 +4,7 @@ use crate::comps::*;
 use crate::reg;
 use gecs::prelude::*;
 
+#[cfg(not(vw_shape_b))]
 ecs_world! {
     ecs_name!(VW);
 
@@ -38,9 +39,29 @@ ecs_world! {
     );
 }
 
+// Shape B (--cfg vw_shape_b): the same archetypes and component sets, but another declaration
+// order, implicit ascending ids with one explicit jump, every column list in another order (the
+// same component sits at different column positions in different archetypes) and a 9-column Aw.
+#[cfg(vw_shape_b)]
+ecs_world! {
+    ecs_name!(VW);
+
+    ecs_archetype!(Aw, Qp, Qi, Qh, Qg, Qf, Qe, Qd, Qc, Qa);
+
+    #[archetype_id(7)]
+    ecs_archetype!(Ar, Tw, Tal, Th, Tb);
+
+    ecs_archetype!(Aq, Tz, Tb, Ta);
+
+    ecs_archetype!(Ap, Ta);
+}
+
 pub const NARCH: usize = 4;
 pub const ARCH_NAMES: [&str; NARCH] = ["Ap", "Aq", "Ar", "Aw"];
+#[cfg(not(vw_shape_b))]
 pub const ARCH_IDS: [u8; NARCH] = [3, 4, 255, 0];
+#[cfg(vw_shape_b)]
+pub const ARCH_IDS: [u8; NARCH] = [9, 8, 7, 0];
 
 pub type Tok = (u32, u32); // raw (key, generation) of an entity handle
 pub type DTok = (u32, u32); // (key, archetype version) of a direct handle
@@ -337,11 +358,19 @@ macro_rules! aops {
 }
 
 aops!(Ap, ApComponents, 0, ap, [Ta ta]);
+#[cfg(not(vw_shape_b))]
 aops!(Aq, AqComponents, 1, aq, [Ta ta, Tb tb, Tz tz]);
+#[cfg(not(vw_shape_b))]
 aops!(Ar, ArComponents, 2, ar, [Tb tb, Th th, Tal tal, Tw tw]);
-#[cfg(not(feature = "32_components"))]
+#[cfg(vw_shape_b)]
+aops!(Aq, AqComponents, 1, aq, [Tz tz, Tb tb, Ta ta]);
+#[cfg(vw_shape_b)]
+aops!(Ar, ArComponents, 2, ar, [Tw tw, Tal tal, Th th, Tb tb]);
+#[cfg(vw_shape_b)]
+aops!(Aw, AwComponents, 3, aw, [Qp qp, Qi qi, Qh qh, Qg qg, Qf qf, Qe qe, Qd qd, Qc qc, Qa qa]);
+#[cfg(all(not(vw_shape_b), not(feature = "32_components")))]
 aops!(Aw, AwComponents, 3, aw, [Qa qa, Qb qb, Qc qc, Qd qd, Qe qe, Qf qf, Qg qg, Qh qh, Qi qi, Qj qj, Qk qk, Ql ql, Qm qm, Qn qn, Qo qo, Qp qp]);
-#[cfg(feature = "32_components")]
+#[cfg(all(not(vw_shape_b), feature = "32_components"))]
 aops!(Aw, AwComponents, 3, aw, [Qa qa, Qb qb, Qc qc, Qd qd, Qe qe, Qf qf, Qg qg, Qh qh, Qi qi, Qj qj, Qk qk, Ql ql, Qm qm, Qn qn, Qo qo, Qp qp,
                   Ra ra, Rb rb, Rc rc, Rd rd, Re re, Rf rf, Rg rg, Rh rh, Ri ri, Rj rj, Rk rk, Rl rl, Rm rm, Rn rn, Ro ro, Rp rp]);
 
